@@ -1,4 +1,5 @@
 import SaVerif.Lemmas.Pratt
+import SaVerif.Lemmas.ExprCore
 import SaVerif.Model.Expr
 import SaVerif.Model.ExprGrammar
 import SaVerif.Model.ExprEval
@@ -144,6 +145,86 @@ theorem pairwise_sqlite_counterexample : pairwiseOK .sqlite sqlite (fun _ _ => f
 theorem unary_sqlite : unaryOK .sqlite sqlite (fun _ => false) = true := by decide +kernel
 theorem unary_postgresql : unaryOK .postgresql postgresql (fun _ => false) = true := by decide +kernel
 theorem unary_mysql : unaryOK .mysql mysql (fun _ => false) = true := by decide +kernel
+
+/-! ### the general theorem on the core fragment
+
+`Core e`: `e` is built from columns, literals, NULL/TRUE/FALSE, the binary operators
+`+ - * %  = != < <= > >=  IS  IS NOT`, flattened `+ * AND OR` lists, unary minus, NOT and
+`Grouping` — of any size and depth.  `WG e`: every operand is already grouped against its
+parent, i.e. `operand.self_group(against=parent.operator)` would not wrap it (what
+`BinaryExpression.__init__`, `_construct_for_list`, `UnaryExpression.__init__` establish).
+`coreCompat g`: the decidable compatibility of the **regenerated** precedence numbers with
+grammar `g` (a higher number binds tighter in `g` on both sides; naturally self-precedent
+operators are left-associative chains of `g`). -/
+
+theorem coreCompat_sqlite : coreCompat sqlite = true := by decide +kernel
+theorem coreCompat_postgresql : coreCompat postgresql = true := by decide +kernel
+theorem coreCompat_mysql : coreCompat mysql = true := by decide +kernel
+
+theorem prefixNoTern_sqlite : prefixNoTern sqlite := by
+  intro u hu; simp [corePrefix] at hu; rcases hu with h | h <;> subst h <;> rfl
+theorem prefixNoTern_postgresql : prefixNoTern postgresql := by
+  intro u hu; simp [corePrefix] at hu; rcases hu with h | h <;> subst h <;> rfl
+theorem prefixNoTern_mysql : prefixNoTern mysql := by
+  intro u hu; simp [corePrefix] at hu; rcases hu with h | h <;> subst h <;> rfl
+
+/-- **core_render_read_back** (every element of the fragment, any depth, any dialect's
+    rendering, any compatible grammar): the backend reads the emitted text back as the emitted
+    tree, up to re-association of the associative chains. -/
+theorem core_render_read_back (d : Dialect) (g : Grammar) (hg : coreCompat g = true)
+    (hpt : prefixNoTern g) (e : SaExpr) (hC : Core e = true) (hW : WG e = true) :
+    parse g (render d true e).print = some (render d true e).norm :=
+  parse_print_norm g _ (wb_norm_of_ok g _ (ok_render g (compat_of_bool g hg) hpt d e hC hW))
+
+/-- **render_meaning_preserved** on the fragment: the value the backend computes from the
+    emitted text equals the value of the emitted tree — and of its fully parenthesised text —
+    under every interpretation with transparent parentheses and associative `+ * || AND OR`. -/
+theorem core_render_meaning_preserved {V : Type} (d : Dialect) (g : Grammar)
+    (hg : coreCompat g = true) (hpt : prefixNoTern g) (I : Interp V)
+    (hassoc : ∀ s, G.assocSym s = true → ∀ a b c, I.inf s (I.inf s a b) c = I.inf s a (I.inf s b c))
+    (hparen : ∀ v, I.br .paren v = v)
+    (e : SaExpr) (hC : Core e = true) (hW : WG e = true) :
+    (parse g (render d true e).print).map (evalG I) = some (evalG I (render d true e).fullParen) := by
+  rw [backend_value_of_text g I hassoc _
+    (wb_norm_of_ok g _ (ok_render g (compat_of_bool g hg) hpt d e hC hW))]
+  simp [evalG_fullParen I hparen]
+
+theorem core_sqlite (e : SaExpr) (hC : Core e = true) (hW : WG e = true) :
+    parse sqlite (render .sqlite true e).print = some (render .sqlite true e).norm :=
+  core_render_read_back .sqlite sqlite coreCompat_sqlite prefixNoTern_sqlite e hC hW
+
+theorem core_postgresql (e : SaExpr) (hC : Core e = true) (hW : WG e = true) :
+    parse postgresql (render .postgresql true e).print = some (render .postgresql true e).norm :=
+  core_render_read_back .postgresql postgresql coreCompat_postgresql prefixNoTern_postgresql e hC hW
+
+theorem core_mysql (e : SaExpr) (hC : Core e = true) (hW : WG e = true) :
+    parse mysql (render .mysql true e).print = some (render .mysql true e).norm :=
+  core_render_read_back .mysql mysql coreCompat_mysql prefixNoTern_mysql e hC hW
+
+/-- the constructors establish the hypothesis `WG` (and stay in the fragment):
+    `BinaryExpression.__init__`, `UnaryExpression.__init__`, `_construct_for_list` -/
+theorem constructors_establish_WG :
+    (∀ (l r : SaExpr) (op : Op) (ty : Ty) (n : Option Op), coreBin op = true →
+      Core l = true → WG l = true → Core r = true → WG r = true →
+      Core (mkBinary l r op ty n none) = true ∧ WG (mkBinary l r op ty n none) = true) ∧
+    (∀ (x : SaExpr) (op : Op) (ty : Ty), coreUn op = true → Core x = true → WG x = true →
+      Core (.unary op (selfGroup (some op) x) ty) = true ∧
+        WG (.unary op (selfGroup (some op) x) ty) = true) ∧
+    (∀ (op : Op) (ty : Ty) (cs : List SaExpr), coreList op = true → boolCtx op = false →
+      2 ≤ cs.length → CoreList cs = true → (∀ c ∈ cs, WG c = true) →
+      Core (constructForList op ty cs) = true ∧ WG (constructForList op ty cs) = true) :=
+  ⟨fun l r op ty n h a b c d => mkBinary_WG l r op ty n h a b c d,
+   fun x op ty h a b => unary_WG x op ty h a b,
+   fun op ty cs h hb hl a b => constructForList_WG op ty cs h hb hl a b⟩
+
+/-- non-vacuity: `NOT (a = 1 AND b < c + d * 2)` built by the model's constructors is in the
+    fragment and well grouped -/
+example :
+    (match build (.not_ (.and_ [.bin .eq (.col "a" .int) (.li 1),
+        .bin .lt (.col "b" .int) (.bin .add (.col "c" .int) (.bin .mul (.col "d" .int) (.li 2)))])) with
+     | some e => Core e && WG e
+     | none => false) = true := by
+  decide +kernel
 
 /-- the model's rendering of finding F1's tree and its reading by the SQLite table -/
 def f1Tree : U := .bin .concat (.bin .add (.li 1) (.li 2)) (.ls "3")
